@@ -150,3 +150,66 @@ func injectorSeqs() []InjSeq {
 	rec(nil)
 	return out
 }
+
+// Two containers with DIFFERENT tag names in one process (an application container and a plugin
+// container) inject the same struct types: each fills exactly the fields that carry its own tag, in
+// either order, and an injection is a resolution (it freezes the container it was asked of).
+
+type twoTagsAB struct {
+	L interface{} `dependency:"svc"`
+	S interface{} `plugin:"store"`
+	O interface{} `plugin:"?absent"`
+}
+type twoTagsBA struct {
+	S interface{} `plugin:"store"`
+	L interface{} `dependency:"svc"`
+}
+
+func runTagNames() (f *finding) {
+	defer func() {
+		if r := recover(); r != nil {
+			f = &finding{"panic", "no request panics", fmt.Sprintf("two tag names: panic %v", r)}
+		}
+	}()
+	mk := func() (app.DependencyProvider, app.DependencyProvider, *obj, *obj) {
+		a, b := dependency.NewProvider("dependency"), dependency.NewProvider("plugin")
+		ma, mb := &obj{Src: "svc"}, &obj{Src: "store"}
+		a.AddFactory("svc", func(app.DependencyProvider) (interface{}, error) { return ma, nil })
+		b.AddFactory("store", func(app.DependencyProvider) (interface{}, error) { return mb, nil })
+		return a, b, ma, mb
+	}
+	bad := func(format string, args ...interface{}) *finding {
+		return &finding{"tag-names/injection-incomplete", "every later request (direct or by injection into tagged fields) yields that same instance; after the first resolution all further definitions are refused", fmt.Sprintf(format, args...)}
+	}
+	for round := 0; round < 2; round++ { // (a second round: whatever the first one cached per type)
+		a, b, ma, mb := mk()
+		h := &twoTagsAB{}
+		if err := a.InjectTo(h); err != nil {
+			return bad("container 'dependency' InjectTo(twoTagsAB): %v", err)
+		}
+		if err := b.InjectTo(h); err != nil {
+			return bad("container 'plugin' InjectTo(twoTagsAB): %v", err)
+		}
+		if h.L != interface{}(ma) || h.S != interface{}(mb) || h.O != nil {
+			return bad("round %d: a struct injected by container 'dependency' and then by container 'plugin' holds L=%v S=%v O=%v (want the two singletons and nil)", round, h.L, h.S, h.O)
+		}
+		if err := b.AddFactory("late", func(app.DependencyProvider) (interface{}, error) { return nil, nil }); err == nil {
+			return bad("round %d: container 'plugin' accepted a definition after it had injected a struct", round)
+		}
+		a2, b2, ma2, mb2 := mk()
+		g := &twoTagsBA{}
+		if err := b2.InjectTo(g); err != nil {
+			return bad("container 'plugin' InjectTo(twoTagsBA): %v", err)
+		}
+		if err := a2.InjectTo(g); err != nil {
+			return bad("container 'dependency' InjectTo(twoTagsBA): %v", err)
+		}
+		if g.L != interface{}(ma2) || g.S != interface{}(mb2) {
+			return bad("round %d: a struct injected by 'plugin' and then by 'dependency' holds L=%v S=%v", round, g.L, g.S)
+		}
+		if err := a2.AddFactory("late", func(app.DependencyProvider) (interface{}, error) { return nil, nil }); err == nil {
+			return bad("round %d: container 'dependency' accepted a definition after it had injected a struct", round)
+		}
+	}
+	return nil
+}
